@@ -50,8 +50,8 @@ def gen_cases(tier, seed):
     for i in range(6 * k):
         cases.append(dict(kind="greedy", seed=int(rng.integers(1 << 30)), cost=1))
     for algo in ("dqn", "nature_dqn", "ddqn", "per"):
-        for r in range(k):
-            cases.append(dict(kind="dqn_loop", algo=algo,
+        for r in range(2 * k):
+            cases.append(dict(kind="dqn_loop", algo=algo, resume=bool(r % 2),
                               seed=int(rng.integers(1 << 20)), cost=8))
     for algo in ("q_learning", "sarsa", "double_q_learning", "monte_carlo", "dynaq"):
         for eps in (0.0, 0.3):
@@ -412,10 +412,17 @@ def run_dqn_loop(case):
     algo = case["algo"]
     rng = np.random.default_rng(case["seed"])
     total = int(rng.integers(150, 260))
+    if case.get("resume", True):
+        total = int(rng.integers(1600, 2200))  # long enough for windowed power
     ls = int(rng.choice([0, 10, 30])) if algo != "dqn" else 0
+    # resumed training: the schedule is a function of the absolute step
+    G = int(rng.choice([total // 3, total // 2])) if case.get("resume", True) \
+        else 0
     cfg = dict(script=[[5, "T"], [8, "U"], [3, "T"]], seed=case["seed"],
                total_timesteps=total, learning_starts=ls, batch_size=4,
-               update_frequency=2, target_update_frequency=7, snapshots=False,
+               global_step=G,
+               update_frequency=2 if G == 0 else 20, target_update_frequency=7,
+               snapshots=False,
                logger=False, n_actions=3)
     run = make_run(algo, cfg)
     mod = importlib.import_module(run.patch_modules[0])
@@ -437,6 +444,7 @@ def run_dqn_loop(case):
     n_explore = 0
     k = 0
     probs = []
+    explore_flags = []
     eps_sched = np.full(total, 0.1)
     ts = int(total * 0.1)
     if ts > 0:
@@ -455,6 +463,7 @@ def run_dqn_loop(case):
             src = pending[0]
             pending = []
             if src["k"] == "greedy":
+                explore_flags.append(0)
                 if not np.array_equal(src["obs"], cur):
                     res.violation(f"C13/loop/greedy_on_stale_observation/{algo}",
                                   "greedy action computed for another observation")
@@ -470,30 +479,45 @@ def run_dqn_loop(case):
                                   f"step {k}: executed action {e['action']} is not "
                                   f"the selected one {src['action']}")
                     return res
-                if k < ls:
+                if G + k < ls:
                     res.violation(f"C13/loop/greedy_during_warmup/{algo}",
-                                  f"step {k} < learning_starts {ls} acted greedily")
+                                  f"step {G + k} < learning_starts {ls} acted "
+                                  f"greedily")
                     return res
             else:
                 n_explore += 1
+                explore_flags.append(1)
                 if int(e["action"]) != int(src["action"]):
                     res.violation(f"C13/loop/action_not_executed/{algo}",
                                   f"step {k}: executed {e['action']}, sampled "
                                   f"{src['action']}")
                     return res
-            probs.append(1.0 if k < ls else float(eps_sched[k]))
+            probs.append(1.0 if G + k < ls else float(eps_sched[G + k]))
             cur = e["obs"]
             k += 1
             res.see("loop_steps_checked")
     probs = np.asarray(probs)
+    # windowed: the exploration rate must follow the schedule locally, too
+    W = 50
+    for w0 in range(0, len(probs) - W + 1, W):
+        pw = probs[w0:w0 + W]
+        cnt = sum(explore_flags[w0:w0 + W])
+        if abs(cnt - pw.sum()) > 6 * np.sqrt(np.sum(pw * (1 - pw))) + 1.5:
+            res.violation(
+                f"C13/loop/exploration_rate/{algo}",
+                f"steps {G + w0}..{G + w0 + W - 1} (resumed at {G} of {total}): "
+                f"{cnt} exploratory steps, documented schedule gives "
+                f"{pw.sum():.1f} +- {np.sqrt(np.sum(pw * (1 - pw))):.1f}")
+            return res
     mean, sd = probs.sum(), np.sqrt(np.sum(probs * (1 - probs)))
     if abs(n_explore - mean) > 6 * sd + 1:
         res.violation(f"C13/loop/exploration_rate/{algo}",
-                      f"{n_explore} exploratory steps of {k}; documented schedule "
+                      f"{n_explore} exploratory steps of {k} (resumed at step {G} "
+                      f"of {total}); documented schedule "
                       f"(1.0 -> 0.1 over the first 10%, all steps before "
                       f"learning_starts={ls}) gives {mean:.1f} +- {sd:.1f}")
-    res.nontrivial = k > 100
-    res.state((algo, ls))
+    res.nontrivial = k > 60
+    res.state((algo, ls, G > 0))
     return res
 
 
